@@ -34,10 +34,12 @@ def families(tier):
         {'name': 'threads-sb', 'params': {'P': 2, 'prefix': False}, 'weight': 1},
         {'name': 'threads-bf', 'params': {'P': 3, 'prefix': False}, 'weight': 3},
         {'name': 'threads-bf', 'params': {'P': 2, 'prefix': True}, 'weight': 3},
+        {'name': 'threads-reuse', 'params': {'P': 2, 'prefix': True}, 'weight': 3},
     ]
     if tier == 'quick':
         return q
     return q + [
+        {'name': 'threads-reuse', 'params': {'P': 3, 'prefix': True}, 'weight': 4},
         {'name': 'threads-bf', 'params': {'P': 4, 'prefix': False}, 'weight': 4},
         {'name': 'threads-bf', 'params': {'P': 3, 'prefix': True}, 'weight': 4},
         {'name': 'threads-sb', 'params': {'P': 3, 'prefix': True}, 'weight': 3},
@@ -141,11 +143,16 @@ def threads(eng, fam, P):
         def op(b, i, log):
             def f(b2, fn=None):
                 log.append(i)
-                if fam == 'threads-bf':
+                if fam in ('threads-bf', 'threads-reuse'):
                     w.user_write(w.fs, fn, contents[i])
                 return ['value-of', i]
             try:
                 if fam == 'threads-bf':
+                    return b.build_file(path, 'f', f)
+                if fam == 'threads-reuse':
+                    # the duplicate is implied: one caller goes through a subbuild whose (cached) subtree holds the file
+                    if i == 0:
+                        return b.subbuild('holder', lambda b2: b2.build_file(path, 'f', lambda b3, fn: f(b3, fn)))
                     return b.build_file(path, 'f', f)
                 return b.subbuild('k', f, 7)
             except RuntimeError:
@@ -195,7 +202,7 @@ def threads(eng, fam, P):
                   info={'results': repr(v), 'schedule': info.get('trace'), 'thread_exc': info.get('thread_exc')})
         eng.check('C08.function-executions', len(calls) <= 1, sig, info={'calls': list(calls), 'schedule': info.get('trace')})
         eng.witness('threads-one-winner')
-        if fam == 'threads-bf':
+        if fam in ('threads-bf', 'threads-reuse'):
             k = w.fs.kind(path)
             eng.check('C08.winner-output-disturbed', k == FILE, sig + ('kind%d' % k,),
                       info={'kind of the output after the build': k, 'schedule': info.get('trace')})
